@@ -225,8 +225,9 @@ ALIGN = dict(
     fields={"vsg.violation.New.action": "opt[rec{token_index:int,adjust:int}]"},
     requires=[
         "oViolation.action is not None",
-        # the aligned token is not the first of its region and the region names it
-        "1 <= oViolation.action['token_index'] and oViolation.action['token_index'] < len(%s)" % S,
+        # the region names the aligned token (index 0 occurs: the token is then the first of its line and of the region,
+        # and lTokens[-1] is consulted; the run-time monitor showed it on tests/vhdlFile/shared_variable_declaration)
+        "0 <= oViolation.action['token_index'] and oViolation.action['token_index'] < len(%s)" % S,
     ],
     modifies=["oViolation.oTokens.lTokens", "heap:item.value", "heap:item.code_tags", "heap:item.has_tabs"],
     ensures=[
